@@ -27,7 +27,7 @@ Constructs == {
     "var-chain", "var-self", "var-growth",
     "path-length", "path-junk", "points-length", "transform-list", "bearing-length",
     "siblings", "siblings-text", "attrs-many", "attr-long", "text-long", "comment-long",
-    "retry-chain", "retry-nested", "ref-cycle", "surround-chain", "loop-count", "loop-nested-count", "for-list",
+    "retry-chain", "retry-nested", "retry-nested-ws", "retry-siblings", "ref-cycle", "surround-chain", "loop-count", "loop-nested-count", "for-list",
     "xml-depth", "entity-like", "defaults-many", "class-many"}
 DepthClasses == IF Tier = "quick" THEN {1, 10, 99, 100, 101, 1000, 20000}
                 ELSE {1, 2, 10, 50, 99, 100, 101, 200, 1000, 5000, 20000, 100000}
@@ -64,7 +64,8 @@ ExprLexCases == {[fam |-> "exprlex", toks |-> s, ctx |-> x, allowed |-> {"ok", "
 \* number is turned into a count, an index or a length
 Extremes == {"0", "-0", "1e39", "-1e39", "2147483647", "2147483648", "-2147483648", "-2147483649", "4294967296",
              "18446744073709551616", "1e-46", "16777217", "0.5", "-1", "1e39 - 1e39", "1/0", "0/0"}
-Extremes2 == IF Tier = "quick" THEN {"0", "-1", "1e39", "2147483647", "2147483648", "-2147483649", "1e-46", "0/0", "0.5"} ELSE Extremes
+\* ("1e39 - 1e39" is infinity minus infinity: not a number)
+Extremes2 == IF Tier = "quick" THEN {"0", "-1", "1e39", "2147483647", "2147483648", "-2147483649", "1e-46", "0/0", "0.5", "1e39 - 1e39"} ELSE Extremes
 Fns1 == {"abs", "ceil", "floor", "fract", "sign", "sqrt", "log", "exp", "sin", "cos", "tan", "asin", "acos", "atan", "not",
          "head", "tail", "count", "empty", "sum", "product", "mean", "min", "max"}
 Fns2 == {"divmod", "pow", "randint", "eq", "lt", "and", "swap", "r2p", "p2r", "select", "scalev", "in", "min", "addv"}
@@ -74,7 +75,8 @@ ExprNumCases ==
     \cup {[fam |-> "exprnum", fn |-> f, args |-> <<x, y>>, ctx |-> "attr-braces", allowed |-> {"ok", "err"}] :
               f \in Fns2 \cup {"+", "-", "*", "/", "%"}, x \in Extremes2, y \in Extremes2}
     \cup {[fam |-> "exprnum", fn |-> f, args |-> <<x, y, z>>, ctx |-> "attr-braces", allowed |-> {"ok", "err"}] :
-              f \in Fns3, x \in {"1e39", "-1", "0/0"}, y \in {"0", "2147483648", "-1e39"}, z \in {"1e39", "-2147483649", "0.5"}}
+              f \in Fns3, x \in {"1e39", "-1", "0/0", "1e39 - 1e39"}, y \in {"0", "2147483648", "-1e39", "1e39 - 1e39"},
+              z \in {"1e39", "-2147483649", "0.5", "1e39 - 1e39"}}
     \* numbers that become counts, sizes, indices
     \cup {[fam |-> "exprnum", fn |-> "-", args |-> <<x>>, ctx |-> cx, allowed |-> {"ok", "err"}] :
               x \in Extremes, cx \in {"loop-count", "loop-start-step", "geometry", "for-data", "repeat-text", "config-limit", "font-size", "seed"}}
